@@ -2,6 +2,7 @@ import QipVerif.Lemmas.SimPure
 import QipVerif.Lemmas.SimShare
 import QipVerif.Lemmas.SimPulse
 import QipVerif.Lemmas.SimEdit
+import QipVerif.Model.SimLoad
 import QipVerif.Lemmas.GridStep
 /-!
 # C16 — queries, transformations and simulations are pure and repeatable
@@ -271,6 +272,42 @@ theorem fresh_equivalent_load (cfg : Cfg) (hreset : cfg.resetPhase = true) (phas
     (loadCircuit cfg phases w circ user).1.comp.args = w.comp.args ∧
     (loadCircuit cfg phases w circ user).1.heap = w.heap ∧ (loadCircuit cfg phases w circ user).1.sim = w.sim :=
   load_fresh cfg hreset phases w circ user
+
+/-- **fresh_equivalent_load_pulsefree.** `load_circuit` with its early return (circuits that need no control pulse:
+empty, GLOBALPHASE-only, rotations by 0).  If `global_phase` is overwritten on that path too — or the circuit does not
+take it — then after ANY history of loads (circuits with and without pulses, in any order, default or user compiler)
+a further `load_circuit` leaves the processor holding exactly what a fresh processor holds: the program of this
+circuit (no pulse for a pulse-free one) and THIS circuit's global phase. -/
+theorem fresh_equivalent_load_pulsefree (cfg : Cfg) (hreset : cfg.resetPhase = true) (poe : Bool) (phases : List Int)
+    (pulseFree : List Bool) (w0 : World Q P) (hist : List (Nat × Bool)) (circ : Nat) (user : Bool)
+    (h : poe = true ∨ pulseFree.getD circ false = false) :
+    let wh := loadAllE cfg poe phases pulseFree w0 hist
+    (loadCircuitE cfg poe phases pulseFree wh circ user).1.proc =
+      { pulses := some (circ, if user then wh.comp.args else []), phase := phases.getD circ 0 } ∧
+    (loadCircuitE cfg poe phases pulseFree wh circ user).2 = (circ, if user then wh.comp.args else []) := by
+  intro wh
+  have hl := load_fresh cfg hreset phases wh circ user
+  have he : loadCircuitE cfg poe phases pulseFree wh circ user = loadCircuit cfg phases wh circ user := by
+    unfold loadCircuitE
+    have hc : (pulseFree.getD circ false && !poe) = false := by
+      rcases h with h | h
+      · rw [h]; simp
+      · rw [h]; rfl
+    simp only [hc, Bool.false_eq_true, ↓reduceIte]
+  rw [he]
+  exact ⟨hl.1, hl.2.1⟩
+
+/-- **Counter-example (global phase not stored on the early-return path).** Circuit 0 collects the phase 1 (e.g.
+SNOT), circuit 1 needs no pulse and has phase 0 (e.g. the empty circuit): after `load 0; load 1` the processor holds no
+pulse of circuit 0 any more but still ITS phase 1; a fresh processor that loads circuit 1 has phase 0.  With the phase
+stored on both paths: 0. -/
+theorem C16_counterexample_stale_phase_pulsefree :
+    (loadAllE cfgFixed false [1, 0] [false, true] (world0 []) [(0, false), (1, false)]).proc =
+      { pulses := some (1, []), phase := 1 } ∧
+    (loadAllE cfgFixed false [1, 0] [false, true] (world0 []) [(1, false)]).proc = { pulses := some (1, []), phase := 0 } ∧
+    (loadAllE cfgFixed true [1, 0] [false, true] (world0 []) [(0, false), (1, false)]).proc =
+      { pulses := some (1, []), phase := 0 } := by
+  decide
 
 /-- queries and transformations write nothing -/
 theorem query_pure [One P] [Mul P] (B : Backend Q P) (cfg : Cfg) (mode : Mode) (c : Circuit) (phases : List Int)
